@@ -351,14 +351,17 @@ func init() {
 			"(R2s) the scanner (validate.scanAndFixOutlineItems) leaves its loop towards a plain success return only by the end-of-chain test; (R2p) the unguarded consumer (validateOutlineTreeDepth) is called only after a successful scan. " +
 			"(R3) a document-controlled array indexed by the position in a sibling array has len >= the sibling's established by make(len), a dominating comparison, or on every path to each call site. " +
 			"(R0) the base guard functions still compare/test and return an error. " +
-			"NOT decided: index/slice/nil/type-assertion panics in general (140 of 352 types.Array index sites have no syntactic proof; listed by `pdfcpu-verif debug arrayidx`), time bounds of loops that are not reference chains (e.g. the quadratic BER re-encoding found while building this check), allocation sizes, fonts/certificates parsing by the standard library.",
+			"(R6) the free-list validator, whose repair is what lets the unguarded free-list walkers terminate, closes the list (stores 0 through an Offset field) on every early exit of its visited-set loop that is not an error return; (R5) every slice of a stream dictionary's Content or Raw with a computed bound is behind comparisons with the length of that same buffer (relational range argument shared with C31/C09); (R4) every constant index into a types.Array (165 sites) lies behind a dominating comparison of the array's length, indexes an array built in the same function, reads an array returned by a validate…ArrayEntry call whose arity validator closure fixes the length, is a parameter whose every static call site tests the length, or is in the triage table with its reason (sample generators, colour-space arrays of validated contexts, two disjunctive length tests). NOT decided: index/slice/nil/type-assertion panics in general (140 of 352 types.Array index sites have no syntactic proof; listed by `pdfcpu-verif debug arrayidx`), time bounds of loops that are not reference chains (e.g. the quadratic BER re-encoding found while building this check), allocation sizes, fonts/certificates parsing by the standard library.",
 		Rules: []string{
 			"C08.R0 shape: base guard functions compare a depth / test a visited set and return an error",
 			"C08.R1 SCC: no unguarded recursion cycle that follows indirect references; residual cycles triaged N (verified deref-free) or D (required calls present)",
 			"C08.R1i flow: the depth a depth guard decides on is not handed around a recursion cycle unchanged",
+			"C08.R6 MPT: every early exit of the free-list validator's visited-set loop stores 0 into the last entry's Offset or is an error return",
+			"C08.R5 range: slices of a stream's Content/Raw by computed offsets are bounded by the buffer's length",
+			"C08.R4 guard: a constant index into a document array is behind a length test (dominating comparison, arity validator, call sites) or triaged",
 			"C08.R2 MPT: reference-chain loops pass a guard per iteration",
 			"C08.R2s shape: scanner loop exits", "C08.R2p MPT: consumer only after scanner",
-			"C08.R3 relation: sibling-indexed document arrays have an established length relation",
+			"C08.R4 guard: a constant index into a document array is behind a length test (dominating comparison, arity validator, call sites) or triaged", "C08.R3 relation: sibling-indexed document arrays have an established length relation",
 		},
 		Assumptions: []string{
 			"in-memory types.Object values contain no cycles: pdfcpu never stores a dereferenced container into one of its own ancestors (not checked)",
@@ -403,6 +406,12 @@ func runC08(c *Ctx) {
 	runC08R2(c, gs, "C08.R2", nil)
 	runC08Scanners(c, gs)
 	runC08R3(c)
+	r.MinInst["C08.R4"] = 100
+	runC08R4(c)
+	r.MinInst["C08.R5"] = 3
+	runC08R5(c)
+	r.MinInst["C08.R6"] = 2
+	runC08R6(c)
 	var gl []string
 	for k, v := range gs.funcs {
 		gl = append(gl, k+" = "+v)
